@@ -301,6 +301,9 @@ func c05PoolBFS(driver string, depth int) vh.Unit {
 				}
 				// the captured request submitted again with the identity spelled differently
 				evs = append(evs, "respelled A upper", "respelled A 0x", "respelled A mixed")
+				// ... and with the nonce field moved on while the signature stays (what a replay that
+				// wants to get past the high-water mark has to do)
+				evs = append(evs, "bumped A 1", "bumped A 2", "bumped A 255", "bumped A 1000000")
 				return append(evs, "tick 15m", "tick 16m")
 			},
 			Apply: func(wi interface{}, ev string, judge bool, hist []string) {
@@ -309,6 +312,22 @@ func c05PoolBFS(driver string, depth int) vh.Unit {
 				if f[0] == "tick" {
 					d, _ := time.ParseDuration(f[1])
 					vsched.Advance(d)
+					return
+				}
+				if f[0] == "bumped" {
+					if w.last == nil {
+						return
+					}
+					var d int64
+					fmt.Sscanf(f[2], "%d", &d)
+					_, err := w.pw.Pool.Update(context.Background(), w.last.sig, A.NodeID, w.last.nonce+d, w.last.req)
+					if !vh.IsRefused(err) && judge {
+						u.Observe("bumped honoured")
+						u.Violate("pool-nonce/update/replay-honoured-with-bumped-nonce",
+							fmt.Sprintf("history %v: the honoured vipnode_update of A (nonce %d), submitted again with the same signature and nonce+%d, passed verification (err=%v)", hist, w.last.nonce, d, err), vh.BFSReplay(name, hist))
+					} else if judge {
+						u.Observe("bumped refused")
+					}
 					return
 				}
 				if f[0] == "respelled" {
